@@ -19,8 +19,12 @@ import (
 	"strings"
 
 	sdkmath "cosmossdk.io/math"
+	abci "github.com/cometbft/cometbft/abci/types"
+	clienttx "github.com/cosmos/cosmos-sdk/client/tx"
 	codectypes "github.com/cosmos/cosmos-sdk/codec/types"
 	sdk "github.com/cosmos/cosmos-sdk/types"
+	"github.com/cosmos/cosmos-sdk/types/tx/signing"
+	authsigning "github.com/cosmos/cosmos-sdk/x/auth/signing"
 	"github.com/ethereum/go-ethereum/common"
 
 	"github.com/functionx/fx-core/v8/testutil/helpers"
@@ -71,7 +75,100 @@ func (w *world) envSetup() {
 	w.user = helpers.NewSigner(helpers.NewEthPrivKey())
 	w.s.MintToken(w.user.AccAddress(), sdk.NewCoin(fxtypes.DefaultDenom, w.pr.MulRaw(1000)))
 	w.extH = 1000
+	if w.txmode {
+		// the accounts that sign transactions must exist (zero fee: the minimum gas price is a CheckTx rule)
+		for _, b := range w.bridgers {
+			w.s.MintToken(b, sdk.NewCoin(fxtypes.DefaultDenom, sdkmath.NewInt(1)))
+		}
+		w.out.Count("world:env-signed-txs")
+	}
 }
+
+// ---------------------------------------------------------------------------------------------------------
+// signed transactions inside FinalizeBlock (txmode worlds): claims and pool messages pass the real ante chain and baseapp's
+// runTx (with its panic recovery) in the block whose end-blocker then runs on the state they left
+
+// queue signs `msg` with `by` (SIGN_MODE_DIRECT, zero fee; sequence = account sequence + transactions this signer already has in the
+// pending block) and appends it to the pending block; -1 when it cannot be built
+func (w *world) queue(by *helpers.Signer, msg sdk.Msg) int {
+	txc := w.s.App.GetTxConfig()
+	ctx := w.ctx()
+	txb := txc.NewTxBuilder()
+	if err := txb.SetMsgs(msg); err != nil {
+		return -1
+	}
+	txb.SetGasLimit(5_000_000)
+	acc := w.s.App.AccountKeeper.GetAccount(ctx, by.AccAddress())
+	if acc == nil {
+		w.out.Count("tx:no-account")
+		return -1
+	}
+	if w.txAhead == nil {
+		w.txAhead = map[string]uint64{}
+	}
+	seq := acc.GetSequence() + w.txAhead[by.AccAddress().String()]
+	pk := by.PrivKey().PubKey()
+	mode := signing.SignMode_SIGN_MODE_DIRECT
+	sig := signing.SignatureV2{PubKey: pk, Data: &signing.SingleSignatureData{SignMode: mode}, Sequence: seq}
+	if err := txb.SetSignatures(sig); err != nil {
+		return -1
+	}
+	sd := authsigning.SignerData{Address: by.AccAddress().String(), ChainID: ctx.ChainID(), AccountNumber: acc.GetAccountNumber(), Sequence: seq, PubKey: pk}
+	sig, err := clienttx.SignWithPrivKey(ctx, mode, sd, txb, by.PrivKey(), txc, seq)
+	if err != nil {
+		return -1
+	}
+	if err := txb.SetSignatures(sig); err != nil {
+		return -1
+	}
+	raw, err := txc.TxEncoder()(txb.GetTx())
+	if err != nil {
+		return -1
+	}
+	w.txAhead[by.AccAddress().String()]++
+	w.txs = append(w.txs, raw)
+	return len(w.txs) - 1
+}
+
+// txKind: result of transaction i of the block just finalized, as the error text the handlers produced (the ABCI log carries it)
+func (w *world) txKind(i int) string {
+	if i < 0 || i >= len(w.txRes) {
+		return "err:not-delivered"
+	}
+	r := w.txRes[i]
+	if r.Code == 0 {
+		return "ok"
+	}
+	if strings.Contains(r.Log, "panic") || strings.Contains(r.Log, "runtime error") {
+		return "panic:" + r.Log
+	}
+	return r.Log
+}
+
+func (w *world) signerOf(addr string) *helpers.Signer {
+	for _, k := range w.bkeys {
+		if k.AccAddress().String() == addr {
+			return k
+		}
+	}
+	for _, k := range w.oracles {
+		if k.AccAddress().String() == addr {
+			return k
+		}
+	}
+	return nil
+}
+
+// txBlock: the block that carries the queued transactions; `then` runs after a successful commit and BEFORE the block's own op
+// line: it writes the `intx …` line(s) of the ops the transactions carried
+func (w *world) txBlock(then func()) {
+	w.afterCommit = then
+	w.txAhead = nil
+	w.opBlock(5)
+	w.afterCommit = nil
+}
+
+var _ = abci.ExecTxResult{}
 
 // deliver: through the app's real message router when it has a route for the message, else the chain's message server
 func (w *world) deliver(msg sdk.Msg, direct func(ctx sdk.Context) error) string {
@@ -100,6 +197,10 @@ func (w *world) envMkBatch() {
 	fee := sdk.NewCoin(fxtypes.DefaultDenom, sdkmath.NewInt(int64(1+w.rng.Intn(5))))
 	send := &types.MsgSendToExternal{Sender: w.user.AccAddress().String(), Dest: w.ext(common.HexToAddress("0x00000000000000000000000000000000000000d1")),
 		Amount: sdk.NewCoin(fxtypes.DefaultDenom, sdkmath.NewInt(int64(10+w.rng.Intn(50)))), BridgeFee: fee, ChainName: w.chain}
+	if w.txmode {
+		w.envMkBatchTx(send)
+		return
+	}
 	r1 := w.deliver(send, func(ctx sdk.Context) error { _, err := w.ms.SendToExternal(ctx, send); return err })
 	w.out.Count("env:send-to-external:" + short(r1))
 	// the sender of a batch request must be a bridger or an approved oracle
@@ -125,6 +226,37 @@ func (w *world) envMkBatch() {
 		w.emit("event - - - =", "ok")
 	}
 	w.afterOp()
+}
+
+// envMkBatchTx: MsgSendToExternal (signed by the user) and MsgRequestBatch (signed by a bridger) as transactions of one block
+func (w *world) envMkBatchTx(send *types.MsgSendToExternal) {
+	sender := w.oracles[0].AccAddress().String()
+	for _, o := range w.k.GetAllOracles(w.ctx(), true) {
+		sender = o.BridgerAddress
+		break
+	}
+	req := &types.MsgRequestBatch{Sender: sender, Denom: fxtypes.DefaultDenom, MinimumFee: sdkmath.OneInt(),
+		FeeReceive: w.ext(common.HexToAddress("0x00000000000000000000000000000000000000f1")), ChainName: w.chain, BaseFee: sdkmath.ZeroInt()}
+	before := len(w.batchNonces())
+	i1 := w.queue(w.user, send)
+	i2 := -1
+	if by := w.signerOf(sender); by != nil {
+		i2 = w.queue(by, req)
+	}
+	w.txBlock(func() {
+		w.out.Count("env:tx:send-to-external:" + short(w.txKind(i1)))
+		res := kind(w.txKind(i2), errTable, "other")
+		w.out.Count("env:tx:request-batch:" + res)
+		switch {
+		case res == "ok" && len(w.batchNonces()) == before+1:
+			w.out.Nontrivial("env:tx:real-batch")
+			w.out.Emit("intx mkbatch", "ok ~")
+		case res == "err:dup-block":
+			w.out.Emit("intx mkbatch", res+" ~")
+		default:
+			w.out.Emit("intx event - - - =", "ok ~")
+		}
+	})
 }
 
 func (w *world) envMkCall() {
@@ -185,6 +317,15 @@ func (w *world) vote(nonce uint64, mk func(bridger string) types.ExternalClaim) 
 		msg := &types.MsgClaim{ChainName: w.chain, BridgerAddress: o.BridgerAddress, Claim: anyv}
 		if msg.ValidateBasic() != nil {
 			w.out.Count("env:claim:vb-reject")
+			continue
+		}
+		if w.txmode && !w.claimTxClosed {
+			if by := w.signerOf(o.BridgerAddress); by != nil {
+				if i := w.queue(by, msg); i >= 0 {
+					w.claimTx = append(w.claimTx, i)
+					votes++
+				}
+			}
 			continue
 		}
 		r := w.deliver(msg, func(ctx sdk.Context) error { _, err := w.ms.Claim(ctx, msg); return err })
@@ -267,6 +408,10 @@ func (w *world) opEvent(what string) {
 			return &types.MsgOracleSetUpdatedClaim{EventNonce: nonce, BlockHeight: h, OracleSetNonce: n, Members: members, BridgerAddress: b, ChainName: w.chain}
 		}
 	}
+	if w.txmode && !w.claimTxClosed {
+		w.opEventTx(what, nonce, mk, parked, executedBatch, bBefore, cBefore, obsBefore)
+		return
+	}
 	votes, panicked := w.vote(nonce, mk)
 	observed := w.k.GetLastObservedEventNonce(w.ctx()) == nonce
 	if observed && parked {
@@ -306,6 +451,78 @@ func (w *world) opEvent(what string) {
 		obs = fmt.Sprint(after.Nonce)
 	}
 	w.emit(fmt.Sprintf("event %s %s %s %s", dots(bGone), dots(bcGone), dots(cGone), obs), "ok")
+	w.afterOp()
+}
+
+func obsWord(before, after *types.OracleSet) string {
+	switch {
+	case after == nil && before != nil:
+		return "-"
+	case after != nil && (before == nil || before.Nonce != after.Nonce):
+		return fmt.Sprint(after.Nonce)
+	}
+	return "="
+}
+
+// opEventTx: the same external event, its claims delivered as SIGNED MsgClaim transactions inside the next block's FinalizeBlock
+// (ante chain, baseapp runTx with its panic recovery, message router), the end-blocker of that very block running on what they left
+func (w *world) opEventTx(what string, nonce uint64, mk func(bridger string) types.ExternalClaim, parked bool, executedBatch uint64,
+	bBefore, cBefore []uint64, obsBefore *types.OracleSet) {
+	w.claimTx = nil
+	votes, _ := w.vote(nonce, mk)
+	idx := w.claimTx
+	observed := false
+	w.txBlock(func() {
+		undeliverable := 0
+		for _, i := range idx {
+			r := w.txKind(i)
+			w.out.Count("env:tx:claim:" + short(r))
+			if strings.Contains(r, "expected claim type") {
+				// this snapshot: MsgClaim has no UnpackInterfaces, the decoded transaction carries an unresolved Any and ValidateBasic
+				// rejects it (DESIGN §12) — no claim is deliverable as a transaction; the world falls back to the message router
+				undeliverable++
+			} else if r != "ok" && !strings.HasPrefix(r, "panic") {
+				w.out.Count("env:tx:claim-error:" + clip(r, 90))
+			}
+			if strings.HasPrefix(r, "panic") {
+				// a panic inside a message handler: recovered by baseapp's runTx, the transaction fails, the block goes on
+				w.out.Count("env:tx:claim-panic-recovered:" + what)
+				w.out.Nontrivial("env:tx:claim-panic-recovered:" + what)
+			}
+		}
+		if undeliverable > 0 && undeliverable == len(idx) {
+			w.claimTxClosed = true
+			w.out.Count("env:tx:claim-undeliverable-as-transaction(no UnpackInterfaces):fallback-to-router")
+		}
+		observed = w.k.GetLastObservedEventNonce(w.ctx()) == nonce
+		w.out.Count(fmt.Sprintf("env:tx:event:%s:observed=%v", what, observed))
+		if observed {
+			w.out.Nontrivial("env:tx:event:" + what)
+		}
+		bGone, cGone := missing(bBefore, w.batchNonces()), missing(cBefore, w.callNonces())
+		var bcGone []uint64
+		for _, n := range bGone {
+			if n == executedBatch && observed && what == "batchdone" {
+				bcGone = append(bcGone, n)
+			}
+		}
+		if len(bGone) > 0 {
+			w.out.Nontrivial("env:tx:batches-removed")
+		}
+		if len(cGone) > 0 {
+			w.out.Nontrivial("env:tx:bridge-calls-removed")
+		}
+		w.out.Emit(fmt.Sprintf("intx event %s %s %s %s", dots(bGone), dots(bcGone), dots(cGone), obsWord(obsBefore, w.k.GetLastObservedOracleSet(w.ctx()))), "ok ~")
+	})
+	_ = votes
+	if w.dead || !observed || !parked {
+		return
+	}
+	// a parked claim is executed later (crosschain precompile `executeClaim`; here the keeper entry point), then one more block
+	b2, c2, o2 := w.batchNonces(), w.callNonces(), w.k.GetLastObservedOracleSet(w.ctx())
+	r := w.tx(func(ctx sdk.Context) error { return w.k.ExecuteClaim(ctx, nonce) })
+	w.out.Count("env:tx:execute-claim:" + short(r))
+	w.emit(fmt.Sprintf("event %s - %s %s", dots(missing(b2, w.batchNonces())), dots(missing(c2, w.callNonces())), obsWord(o2, w.k.GetLastObservedOracleSet(w.ctx()))), "ok")
 	w.afterOp()
 }
 
@@ -390,4 +607,11 @@ func (w *world) envSequence(length int) {
 			w.opBlock([]int64{5, w.unb + 1, w.unb}[rng.Intn(3)])
 		}
 	}
+}
+
+func clip(s string, n int) string {
+	if len(s) > n {
+		return s[:n]
+	}
+	return s
 }
